@@ -47,6 +47,11 @@ func ZZ_C17_errorAccounting() {
 	} else {
 		c.Pods = append(c.Pods, zzPod("pod1", zzNodeName(1), zzRSName, zzHashNew, 0, corev1.PodRunning, true, nondet.Base().Add(-120*1e9)))
 	}
+	// the replica set may just have been promoted from canary: its pod on node0 still carries the
+	// canary label, which this sync removes (one more API write between the clean-up and the end)
+	if nondet.Bool("formerCanaryPodStillLabelled") {
+		c.Pods[0].Labels[datadoghqv1alpha1.ExtendedDaemonSetReplicaSetCanaryLabelKey] = datadoghqv1alpha1.ExtendedDaemonSetReplicaSetCanaryLabelValue
+	}
 	// the PodsCleanupDone condition may or may not exist from an earlier sync
 	if nondet.Bool("cleanupCondExists") {
 		c.ERS[0].Status.Conditions = append(c.ERS[0].Status.Conditions, datadoghqv1alpha1.ExtendedDaemonSetReplicaSetCondition{Type: datadoghqv1alpha1.ConditionTypePodsCleanupDone, Status: corev1.ConditionTrue})
